@@ -186,6 +186,26 @@ def model_schedules(tier, rep, keep="1", guard="1", textbuf="0"):
     return out
 
 
+def model_feed_end(tier, rep):
+    """Step D for a server that goes away (FeedEnd): at every point where the client waits the server may close; whatever
+    the segmentation, a client that has seen the end of the stream has processed every complete well-formed line that was
+    sent and nothing else, the unfinished rest is still in its buffer, the end is noticed (liveness under fairness), 1090
+    stays (it polls the closed stream), radar leaves the loop.  The original loops (buffer cleared on a timeout) must fail."""
+    runs = [("VSV", "1090", "4"), ("VUE", "radar", "3")] if tier == "quick" else \
+           [(f, c, "4" if len(f) <= 3 else "3") for f in ("VSV", "VEVV", "VUV", "UV", "VUE") for c in ("1090", "radar")]
+    for feed, client, segs in runs:
+        res = core.run_mc("MC_FeedEnd", workers=4, timeout=1800, cache=False,
+                          env_extra={"FEED": feed, "KEEP": "1", "GUARD": "1", "TEXTBUF": "0", "MAXSEGS": segs, "CLIENT": client})
+        rep.add_model(res, f"MC_FeedEnd({feed},{client})")
+        if not res["ok"]:
+            rep.mismatch("C16", f"feed|model-end|{feed}|{client}", "level_a", {"kind": "model", "violated": res["violated"], "tail": res["output_tail"][-600:]})
+    r0 = core.run_mc("MC_FeedEnd", workers=4, timeout=900, cache=False,
+                     env_extra={"FEED": "VSV", "KEEP": "0", "GUARD": "1", "TEXTBUF": "0", "MAXSEGS": "3", "CLIENT": "radar"})
+    rep.extra["clear_on_timeout_model_violates_ELevelA"] = (not r0["ok"]) and "ELevelA" in r0["violated"]
+    if r0["ok"]:
+        raise core.ToolError("anti-vacuity: FeedEnd with the buffer cleared on every timeout no longer violates ELevelA")
+
+
 def tlaps_nocrash(rep):
     """unbounded counterpart of MC_Feed's NoCrash: the TLA+ proof system checks Feed_proofs.tla (NoCrashAlways)"""
     import subprocess
@@ -205,6 +225,7 @@ def run(prop, tier, seed, rep):
         tlaps_nocrash(rep)
     bindir = core.build_apps()
     scheds = model_schedules(tier, rep)
+    model_feed_end(tier, rep)
     # the line buffer as text (the code before fix 4fbaf9d): the model must lose the property on a line with a stray byte
     r1 = core.run_mc("MC_Feed", workers=4, timeout=900, cache=False, env_extra={"FEED": "VUV", "KEEP": "1", "GUARD": "1", "TEXTBUF": "1", "MAXSEGS": "4"})
     rep.extra["text_line_buffer_model_violates_LevelA"] = (not r1["ok"]) and "LevelA" in r1["violated"]
